@@ -229,6 +229,41 @@ def classify (b : Backend) (toks : List String) (impl : String) : String :=
   | false, true => "F17b"
   | false, false => "unlisted"
 
+/-! ### DirFS hard-link groups (`fs.dirhl`): the model's answers projected onto what a directory-backed file
+system can be asked without modelling the host (`E` for any failure; sizes, modes and kinds of `Stat`; the
+disk view of the names of the alphabet) -/
+
+def projStat (s : StatInfo) (withName : Bool) : Text :=
+  (if withName then hex s.name ++ T "/" else []) ++
+    sepJoin (T "/") [natS s.size, natS s.mode, if s.isDir then T "1" else T "0"]
+
+def projOut : Out → Text
+  | .err _ => T "E"
+  | .ok (.stat s) => T "s" ++ projStat s false
+  | .ok (.entries es) => T "e" ++ sepJoin (T "+") (es.map fun s => projStat s true)
+  | o => outS o
+
+def linkViewS (v : List (Option (Nat × Nat × Text))) : Text :=
+  T "g" ++ sepJoin (T "+") (v.map fun e =>
+    match e with
+    | none => T "-"
+    | some (k, n, d) => sepJoin (T ":") [natS k, natS n, natS d.length, hex d])
+
+def runHL (c : Cfg) : List String → FS → List Text → List Text
+  | [], _, acc => acc.reverse
+  | tok :: rest, fs, acc =>
+    match tok.splitOn "," with
+    | ["hl", ns] => runHL c rest fs (linkViewS (linkView c fs ((ns.splitOn "+").map ux)) :: acc)
+    | _ =>
+      match parseOp tok with
+      | none => runHL c rest fs (T "bad-op" :: acc)
+      | some op =>
+        let (fs1, o) := step c fs op
+        runHL c rest fs1 (projOut o :: acc)
+
+def runHLCase (c : Cfg) (toks : List String) : String :=
+  String.ofList (sepJoin (T ";") (runHL c toks FS.empty []))
+
 def pathReply (t : Text) : Option String :=
   let s := hexS t
   some (s ++ "\t" ++ s ++ "\t-")
@@ -249,6 +284,11 @@ def handle (args : List String) : Option String :=
       let impl := runCase (Cfg.impl bk) true toks
       let spec := runCase (Cfg.spec bk) true toks
       some (impl ++ "\t" ++ spec ++ "\t-")
+  | "fs.dirhl" :: toks =>
+    -- DirFS inside its envelope is the model's memfs with the content on disk
+    let impl := runHLCase (Cfg.impl .memfs) toks
+    let spec := runHLCase (Cfg.spec .memfs) toks
+    some (impl ++ "\t" ++ spec ++ "\t" ++ (if impl = spec then "-" else "unlisted"))
   | ["fs.dirfs", op, why, res] =>
     -- DirFS is judged by the harness-side oracles; the class of a failed verdict is decided here
     let cls := if why = "atomic" ∧ op = "remove" ∧ (res = "ENOTEMPTY" ∨ res = "EEXIST") then "F17f" else "unlisted"
